@@ -94,6 +94,23 @@ Theorem decode_encode_valid : forall dt pad p its,
 Proof. exact decode_encode_valid_l. Qed.
 Print Assumptions decode_encode_valid.
 
+(* the same for mu-law codes (TYPE_AU1, TYPE_AU2): any bytes, bit shifts 0..12 that
+   may change between blocks, LPC coefficients of total magnitude <= 2^11 *)
+Theorem encode_total_au : forall pad p its,
+  valid_params p = true -> p_ftype p = c_TYPE_AU1 \/ p_ftype p = c_TYPE_AU2 ->
+  valid_items_au p (p_bs p) 0 O its ->
+  exists bytes, shn_encode pad p its = Some bytes.
+Proof. exact encode_total_au_l. Qed.
+Print Assumptions encode_total_au.
+
+Theorem decode_encode_valid_au : forall dt pad p its,
+  valid_params p = true -> p_ftype p = c_TYPE_AU1 \/ p_ftype p = c_TYPE_AU2 ->
+  valid_items_au p (p_bs p) 0 O its ->
+  exists bytes, shn_encode pad p its = Some bytes
+                /\ shn_decode dt bytes = Ok (expected dt p its).
+Proof. exact decode_encode_valid_au_l. Qed.
+Print Assumptions decode_encode_valid_au.
+
 (* from a multi-channel signal and per-round choices: the decoded array is the
    signal, channels interleaved sample by sample *)
 Theorem decode_encode_signal : forall dt pad p rs chans,
